@@ -50,6 +50,11 @@ SEEDS = {
  'C17d': ('C17', 'back11 is_flag_active: the region loop stops as soon as the flag was found ("no need to ask the remaining regions") - also for Flag_AND', 'Flag_AND, two or more regions, region 0 carries the flag and another does not'),
  'C19d': ('C19', 'active_state_switch_after_exit::after_exit returns the current state (copy-paste from the neighbouring policy)', 'active_state_switch_after_exit and an observation from inside the transition action'),
  'C20d': ('C20', 'basic_polymorphic_base copy assignment: destroy() skipped when both sides hold the same dynamic type (storage "reused", but copy() copy-constructs)', 'copy-assign a backmp11 machine onto one that has a pending event of the same non-trivial / heap-stored type at the same pool index'),
+ 'C01d': ('C01', 'backmp11 favor_runtime_speed needs_forward_transition_impl: "simplified" to has_transitions || has_forward_transitions - the has_internal_transitions term disappears (type-level; same hole as C06d)', 'active submachine that knows an event only through its own internal_transition_table'),
+ 'C04d': ('C04', 'back/back11 enqueue_event_helper: the stored occurrence is bound with EVENT_SOURCE_DIRECT instead of EVENT_SOURCE_MSG_QUEUE', 'enqueue_event then execute_single_queued_event with two or more pending events: the whole queue is drained'),
+ 'C05d': ('C05', 'back/back11 do_entry: do_handle_deferred(false) - no new deferral cycle when a submachine is entered', 'events deferred inside a submachine, kept across its exit by the history policy, submachine re-entered in a non-deferring configuration'),
+ 'C08d': ('C08', 'ShallowHistoryImpl::history_entry: exact-type test replaced by "is or derives from a listed event" (find_if<is_base_of>)', 'ShallowHistory<E>, entering event D : E that is not itself listed'),
+ 'C14d': ('C14', 'basic front-end a_irow declares row_type_tag = a_row_tag (one-letter slip): an action-only internal row becomes an external self-transition', 'basic front-end machine with an a_irow row; exit/entry of the state observable'),
  'C13b': ('C13', 'backmp11 favor_runtime_speed needs_forward_transition: no longer looks into sub-submachines (a type computation)', 'three-level hierarchy, event only the innermost machine has rows for, middle machine does not mention it'),
  'C14a': ('C14', 'puml parse_row_right: action length clamped to 0 when the guard is written before the action list', 'a transition line of the form  A -> B : ev [guard] / action'),
  'C14c': ('C14', 'functor Internal<> rows with an action always answer HANDLED_TRUE (instead of get_functor_return_value<Action>)', 'state-local internal row whose action defers (Defer or a deferring sequence): answers TRUE, the back-end re-dispatches the deferred event at once'),
